@@ -3,6 +3,7 @@ package main
 import (
 	"flag"
 	"fmt"
+	"io"
 	"math/rand"
 	"path/filepath"
 	"sync"
@@ -103,7 +104,13 @@ func buildClassTable(vc tally.ValidCharacters, rep rune, rng *rand.Rand) *classT
 	if rep != utf8.RuneError {
 		t.img["F"] = string(utf8.RuneError)
 	}
-	t.img["X"] = []string{"\xff", "\xc3", "\xfe", "\xc0"}[rng.Intn(4)]
+	// one invalid byte: never-valid bytes, a stray continuation byte, and lead bytes of 2-, 3- and 4-byte sequences
+	// that are not followed by their continuation (0xEF is the lead byte of U+FFFD itself)
+	xs := []string{"\xff", "\xc3", "\xfe", "\xc0", "\xef", "\xed", "\xf0", "\x80", "\xe0"}
+	t.img["X"] = xs[rng.Intn(len(xs))]
+	if t.fffd && rng.Intn(2) == 0 {
+		t.img["X"] = "\xef"
+	}
 	for _, c := range []string{"V", "W", "E", "I", "J", "R", "F", "X"} {
 		if t.img[c] != "" {
 			t.classes = append(t.classes, c)
@@ -287,7 +294,18 @@ func init() {
 				if rng.Intn(2) == 0 {
 					sc = sc.SubScope(pick())
 				} else {
-					sc = sc.Tagged(map[string]string{pick(): pick(), pick(): pick()})
+					tg := map[string]string{pick(): pick(), pick(): pick()}
+					parent := sc
+					sc = parent.Tagged(tg)
+					if rng.Intn(2) == 0 {
+						// close the sub-scope and obtain it again before any report pass removed it: the scope that
+						// replaces it must be built from sanitized tags like the first one
+						sc.Counter(pick()).Inc(1)
+						if cl, ok := sc.(io.Closer); ok {
+							cl.Close()
+						}
+						sc = parent.Tagged(tg)
+					}
 				}
 				sc.Counter(pick()).Inc(1)
 				sc.Gauge(pick()).Update(1)
